@@ -178,6 +178,18 @@ def read_records_from(stream):
     return records, None
 
 
+def read_records_from_reader(reader):
+    records = []
+
+    try:
+        for rec in reader:
+            records.append(rec)
+    except Exception as e:
+        return records, e
+
+    return records, None
+
+
 def read_records(data, budget=True):
     """Run the streaming reader; return (records, exception or None).
 
